@@ -528,6 +528,26 @@ package jd
 //@   ensures_bounded ret0
 //@   carries C09
 
+//@ contract verifReadPatchVariations
+//@   bounded
+//@   universe a verifRandA(TIER)
+//@   universe b verifRandB(TIER)
+//@   universe c verifRandC(TIER)
+//@   zip a b c
+//@   universe v []int{0, 1, 2, 3, 4, 5, 6}
+//@   requires validNode(a) && validNode(b) && validNode(c)
+//@   ensures_bounded ret0 == ""
+//@   carries C10
+
+//@ contract verifReadPatchVariationsSmall
+//@   bounded
+//@   universe a verifConvNodes(verifSmallArrays(3))
+//@   universe b verifConvNodes(verifSmallArrays(3))
+//@   universe c verifConvNodes(verifSmallArrays(2))
+//@   universe v []int{1, 2, 3, 4, 5, 6}
+//@   ensures_bounded ret0 == ""
+//@   carries C10
+
 //@ contract verifReadPatchKeys
 //@   bounded
 //@   universe a verifPointerDocs(1)
